@@ -95,6 +95,7 @@ type docGen struct {
 	safeVars []string // variables not referenced yet whose value is safe inside splices
 	wildVars []string // variables not referenced yet with wide-alphabet values (pure references only)
 	allVars  []string // every variable name
+	dotted   bool // this document may use keys containing '.'
 	hasDot   bool
 	hasRef   bool
 }
@@ -107,8 +108,10 @@ func (g *docGen) key(d *model.Node) string {
 			k = plainKeys[g.r.Intn(len(plainKeys))]
 		case x < 19:
 			k = oddKeys[g.r.Intn(len(oddKeys))]
-		default:
+		case g.dotted:
 			k = dotKeys[g.r.Intn(len(dotKeys))]
+		default:
+			k = plainKeys[g.r.Intn(len(plainKeys))]
 		}
 		if _, dup := d.D[k]; dup {
 			continue
@@ -294,6 +297,7 @@ func (g *docGen) dict(depth, nkeys int) *model.Node {
 func (g *docGen) top() *model.Node {
 	r := g.r
 	depth := 1 + r.Intn(4)
+	g.dotted = r.Intn(8) == 0
 	if r.Intn(12) == 0 {
 		n := model.List()
 		for i, c := 0, r.Intn(5); i < c; i++ {
@@ -319,9 +323,13 @@ func (g *docGen) top() *model.Node {
 			}
 		}
 	}
-	for i, c := 0, r.Intn(6); i < c; i++ {
+	for i, c := 0, r.Intn(7); i < c; i++ {
 		if k := g.key(n); k != "" {
-			n.D[k] = g.node(depth - 1)
+			if i == 0 && r.Intn(2) == 0 {
+				n.D[k] = g.dict(depth-1, 1+r.Intn(4)) // most documents nest
+			} else {
+				n.D[k] = g.node(depth - 1)
+			}
 		}
 	}
 	return n
@@ -521,8 +529,8 @@ func (w *renderer) quote(s string) {
 		case c < 0x20:
 			u()
 			w.res.SetAdd("escape", `\u00XX(control)`)
-		case c >= 0x7f && c <= 0x9f, c == 0xfffe, c == 0xffff:
-			// not accepted literally by YAML
+		case c >= 0x7f && c <= 0x9f, c == 0xfffe, c == 0xffff, c == 0x2028, c == 0x2029:
+			// not accepted literally by YAML, or read as a line break and folded
 			u()
 			w.res.SetAdd("escape", `\uXXXX(yaml-nonprintable)`)
 		case c > 0xffff:
@@ -553,7 +561,9 @@ func (w *renderer) float(f float64) {
 	case x == 0:
 		s = strconv.FormatFloat(f, 'e', -1, 64)
 		w.res.SetAdd("number_format", "float:e")
-	case x == 1 && (a == 0 || a >= 1e-9 && a < 1e25):
+	case x == 1 && (a == 0 || a >= 1e-9 && a < 1<<53):
+		// an integral float prints as an integer literal: beyond 2^53 YAML would
+		// keep it exact while JSON rounds it (not demanded)
 		s = strconv.FormatFloat(f, 'f', -1, 64)
 		w.res.SetAdd("number_format", "float:f")
 	case x == 2 && (a == 0 || a >= 1e-9 && a < 1e25):
@@ -769,8 +779,23 @@ func prefilter(text []byte, tree *model.Node) string {
 	for i, v := range []interface{}{j, y, h} {
 		var got strings.Builder
 		strictIfc(&got, v)
-		if got.String() != want.String() {
-			return []string{"json", "yaml", "hjson"}[i] + "-decoder-differs-from-tree"
+		if g, w := got.String(), want.String(); g != w {
+			k := 0
+			for k < len(g) && k < len(w) && g[k] == w[k] {
+				k++
+			}
+			lo := k - 12
+			if lo < 0 {
+				lo = 0
+			}
+			win := func(s string) string {
+				hi := k + 12
+				if hi > len(s) {
+					hi = len(s)
+				}
+				return s[lo:hi]
+			}
+			return fmt.Sprintf("%s-decoder-differs-from-tree|decoded %q tree %q", []string{"json", "yaml", "hjson"}[i], win(g), win(w))
 		}
 	}
 	return ""
@@ -1238,7 +1263,11 @@ func (check) Run(seed int64, tier string, idx int, verbose bool) harness.Result 
 	}
 	if why := prefilter(text, tree); why != "" {
 		res.Ev("prefilter_rejected", 1)
-		res.SetAdd("prefilter_reason", why)
+		reason, example, _ := strings.Cut(why, "|")
+		res.SetAdd("prefilter_reason", reason)
+		if example != "" {
+			res.SetAdd("prefilter_example", reason+": "+example)
+		}
 		if verbose {
 			fmt.Println("prefilter:", why)
 		}
@@ -1561,7 +1590,8 @@ func faultPhase(res *harness.R, r *rand.Rand, g *docGen, tree *model.Node, dir, 
 	text := render(r, res, ft)
 	if why := prefilter(text, ft); why != "" {
 		res.Ev("prefilter_rejected_fault_document", 1)
-		res.SetAdd("prefilter_reason", why)
+		reason, _, _ := strings.Cut(why, "|")
+		res.SetAdd("prefilter_reason", reason)
 		return
 	}
 	shapeName := ""
@@ -1671,13 +1701,39 @@ func faultPhase(res *harness.R, r *rand.Rand, g *docGen, tree *model.Node, dir, 
 			continue
 		}
 		quoted := "'" + path + "'"
+		// input class of the fault for the signatures
+		class := "conversion"
+		switch {
+		case fk.name == "validate-required-null":
+			class = "required-null"
+		case fk.tag != "":
+			class = "validator"
+		}
+		if len(steps) == 1 {
+			class += ":top-level-setting"
+		} else {
+			class += ":nested-setting"
+		}
+		var lacking []int
+		for i := range loaders {
+			if fileOut[i].loaded && !strings.Contains(fileOut[i].err.Error(), files[i]) {
+				lacking = append(lacking, i)
+			}
+		}
+		for _, i := range lacking {
+			who := loaders[i].name
+			if len(lacking) == len(loaders) {
+				if i > 0 {
+					continue
+				}
+				who = "all-loaders"
+			}
+			res.Violate("error-lacks-source:"+who+":"+class, "%s.NewConfigWithFile(%q): Unpack error %q does not mention the file (%d of %d loaders affected); %s",
+				loaders[i].name, files[i], fileOut[i].err.Error(), len(lacking), len(loaders), ctx)
+		}
 		for i, l := range loaders {
 			if fileOut[i].loaded {
-				msg := fileOut[i].err.Error()
-				if !strings.Contains(msg, files[i]) {
-					res.Violate("error-lacks-source:"+l.name, "%s.NewConfigWithFile(%q): Unpack error %q does not mention the file; %s", l.name, files[i], msg, ctx)
-				}
-				pathVerdict(res, l.name+"-withfile", msg, quoted, ctx)
+				pathVerdict(res, l.name+"-withfile", fileOut[i].err.Error(), quoted, ctx)
 				res.Ev("source_checked", 1)
 			}
 			if memOut[i].loaded {
